@@ -51,6 +51,12 @@ pub enum Action {
     Delete,
     /// move the file to a new name (the configuration follows)
     Rename,
+    /// write a new valid version whose last line is `$INCLUDE inc<i>.zone`: it loads iff that file is good
+    IncludeMain,
+    /// (re)write the included file with good content; the zone's main file is not touched
+    IncludeFix,
+    /// delete the included file; the zone's main file is not touched
+    IncludeBreak,
 }
 
 #[derive(Clone, Debug, Serialize, Deserialize, PartialEq, Eq, Hash)]
@@ -81,6 +87,9 @@ fn action() -> impl Strategy<Value = Action> {
         3 => (0u8..8).prop_map(Action::Invalid),
         1 => Just(Action::Delete),
         1 => Just(Action::Rename),
+        2 => Just(Action::IncludeMain),
+        2 => Just(Action::IncludeFix),
+        1 => Just(Action::IncludeBreak),
     ]
 }
 
@@ -103,6 +112,8 @@ fn case_strategy() -> impl Strategy<Value = Case> {
 #[derive(Clone, Debug, PartialEq, Eq)]
 enum Content {
     Valid(u32),
+    /// valid as long as the file it includes is there and good
+    ValidWithInclude(u32),
     Bad,
 }
 
@@ -395,6 +406,9 @@ pub fn oracle(case: &Case, st: &mut Stats) -> Verdict {
     let mut paths: Vec<PathBuf> = UNIVERSE.iter().enumerate().map(|(i, _)| dir.join(format!("zone{i}.zone"))).collect();
     let mut version: u32 = 0;
     let mut renames = 0u32;
+    // is the file that zone i's main file may include present and good?
+    let mut include_ok = vec![false; UNIVERSE.len()];
+    let mut cured_by_include_alone = false;
     let mut prev: MCat = MCat::new();
     let mut daemon: Option<Daemon> = None;
     let mut nested_failure_while_parent_changes = false;
@@ -444,6 +458,27 @@ pub fn oracle(case: &Case, st: &mut Stats) -> Verdict {
                         disk[i] = None;
                     }
                 }
+                Action::IncludeMain => {
+                    version += 1;
+                    let text = format!("{}$INCLUDE inc{i}.zone\n", valid_zone_text(zone, version));
+                    io(write_with_mtime(&paths[i], &text, clock.next()));
+                    disk[i] = Some(DiskFile { path: paths[i].clone(), content: Content::ValidWithInclude(version) });
+                    changed_valid[i] = include_ok[i];
+                }
+                Action::IncludeFix => {
+                    io(write_with_mtime(&dir.join(format!("inc{i}.zone")), "included IN TXT \"from the included file\"\n", clock.next()));
+                    if !include_ok[i] && matches!(disk[i], Some(DiskFile { content: Content::ValidWithInclude(_), .. })) && step.zones[i].configured {
+                        // the zone's own file stays as it is; only what it includes is repaired
+                        if !matches!(prev.get(zone), Some(MEntry::Loaded(_))) {
+                            cured_by_include_alone = true;
+                        }
+                    }
+                    include_ok[i] = true;
+                }
+                Action::IncludeBreak => {
+                    let _ = fs::remove_file(dir.join(format!("inc{i}.zone")));
+                    include_ok[i] = false;
+                }
                 Action::Rename => {
                     if let Some(f) = disk[i].clone() {
                         renames += 1;
@@ -472,6 +507,9 @@ pub fn oracle(case: &Case, st: &mut Stats) -> Verdict {
             let zone = UNIVERSE[*i].to_string();
             let e = match &disk[*i] {
                 Some(DiskFile { content: Content::Valid(v), .. }) => MEntry::Loaded(*v),
+                // (a zone that is being served from version v keeps doing so whether the daemon skips
+                // the unchanged main file, reloads it successfully, or fails and falls back)
+                Some(DiskFile { content: Content::ValidWithInclude(v), .. }) if include_ok[*i] || prev.get(&zone) == Some(&MEntry::Loaded(*v)) => MEntry::Loaded(*v),
                 _ => {
                     failing[*i] = true;
                     match prev.get(&zone) {
@@ -639,6 +677,9 @@ pub fn oracle(case: &Case, st: &mut Stats) -> Verdict {
     st.class_n("steps", case.steps.len() as u64);
     if case.tokio {
         st.class("histories-with-the-tokio-provider");
+    }
+    if cured_by_include_alone {
+        st.class("zone-not-being-served-is-cured-by-repairing-only-the-file-it-includes");
     }
     if nested_failure_while_parent_changes {
         st.nontrivial(case, || json!({"steps": case.steps.len(), "note": "a nested zone fails to load in a step in which an enclosing zone gets a new valid version"}));
